@@ -4,6 +4,7 @@ package utxo
 
 import (
 	"bytes"
+	"github.com/piotrnar/gocoin/lib/btc"
 
 	"github.com/piotrnar/gocoin/lib/others/zzverif"
 )
@@ -139,5 +140,23 @@ func H_C10_CompressedRoundTrip() {
 		} else {
 			zzverif.Assert("C10.compressed.lookup-spent", one == nil)
 		}
+	}
+}
+
+// C10: amount compression round trip for every amount in [0, 21e6 BTC] (Int mode: the *10 / /10 chains
+// are linear over mathematical integers; bit-blasting 64-bit divisions by 10 does not finish).
+func H_C10_Amount() {
+	zzverif.IntMode()
+	n := zzverif.U64("amount")
+	zzverif.Assume(n <= 21000000*100000000)
+	zzverif.Bound("amount", "every n in [0, 2 100 000 000 000 000] satoshi")
+	c := btc.CompressAmount(n)
+	back := btc.DecompressAmount(c)
+	zzverif.Assert("C10.amount.roundtrip", back == n)
+	if n%10 != 0 {
+		zzverif.Reach("no-trailing-zero")
+	}
+	if c < n {
+		zzverif.Reach("shorter")
 	}
 }
